@@ -114,48 +114,117 @@ fn install_hook() {
         vcore::util::LAST_PANIC.with(|p| *p.borrow_mut() = s);
     }));
 }
-static BT_CACHE: Mutex<BTreeMap<Vec<usize>, Option<String>>> = Mutex::new(BTreeMap::new());
-/// First turdb frame of the current call stack.  Symbolisation is slow (the
-/// first one costs ~2 s), so it is done once per distinct stack of return
-/// addresses and with the watchdog paused.
-fn turdb_caller() -> Option<String> {
-    let mut ips = [std::ptr::null_mut::<libc::c_void>(); 64];
-    let n = unsafe { libc::backtrace(ips.as_mut_ptr(), 64) }.max(0) as usize;
-    let key: Vec<usize> = ips[..n].iter().map(|p| *p as usize).collect();
-    if let Some(v) = BT_CACHE.lock().unwrap().get(&key) {
-        return v.clone();
-    }
-    let armed = WD_START.swap(0, Ordering::Relaxed);
-    let bt = std::backtrace::Backtrace::force_capture().to_string();
-    let r = first_turdb_frame(&bt);
-    BT_CACHE.lock().unwrap().insert(key, r.clone());
-    if armed != 0 {
-        WD_START.store(now_ms() + 1, Ordering::Relaxed);
-    }
-    r
+/// FUNC symbols of this executable (own minimal ELF64 .symtab reader: std's
+/// backtrace symbolisation costs seconds for the first frame and ~60 ms per new
+/// stack, which would race with the watchdog).
+struct Syms {
+    /// (address, size, offset of the name in `strtab`), sorted by address
+    v: Vec<(u64, u64, u32)>,
+    strtab: Vec<u8>,
+    bias: u64,
 }
-fn first_turdb_frame(bt: &str) -> Option<String> {
-    for line in bt.lines() {
-        let l = line.trim();
-        let Some((num, rest)) = l.split_once(": ") else { continue };
-        if num.is_empty() || !num.bytes().all(|b| b.is_ascii_digit()) {
-            continue;
+fn rd<const N: usize>(b: &[u8], off: usize) -> [u8; N] {
+    let mut a = [0u8; N];
+    if off + N <= b.len() {
+        a.copy_from_slice(&b[off..off + N]);
+    }
+    a
+}
+unsafe extern "C" fn phdr_cb(info: *mut libc::dl_phdr_info, _sz: libc::size_t, data: *mut libc::c_void) -> libc::c_int {
+    // the first object reported is the executable itself
+    *(data as *mut u64) = (*info).dlpi_addr as u64;
+    1
+}
+fn load_syms() -> Syms {
+    let mut bias = 0u64;
+    unsafe { libc::dl_iterate_phdr(Some(phdr_cb), &mut bias as *mut u64 as *mut libc::c_void) };
+    let mut out = Syms { v: Vec::new(), strtab: Vec::new(), bias };
+    let Ok(b) = std::fs::read("/proc/self/exe") else { return out };
+    if b.len() < 64 || &b[..4] != b"\x7fELF" || b[4] != 2 {
+        return out;
+    }
+    let shoff = u64::from_le_bytes(rd(&b, 0x28)) as usize;
+    let shentsize = u16::from_le_bytes(rd(&b, 0x3A)) as usize;
+    let shnum = u16::from_le_bytes(rd(&b, 0x3C)) as usize;
+    let sh = |i: usize, off: usize| shoff + i * shentsize + off;
+    for i in 0..shnum {
+        if u32::from_le_bytes(rd(&b, sh(i, 4))) != 2 {
+            continue; // SHT_SYMTAB
         }
-        // the symbol may be `<turdb::X as Trait>::f` or `turdb::a::b::f`
-        let Some(p) = rest.find("turdb::") else { continue };
-        let mut name: String = rest[p..].to_string();
-        if let Some(h) = name.rfind("::h") {
-            if name.len() - h == 19 && name[h + 3..].bytes().all(|b| b.is_ascii_hexdigit()) {
-                name.truncate(h);
+        let (off, size) = (u64::from_le_bytes(rd(&b, sh(i, 0x18))) as usize, u64::from_le_bytes(rd(&b, sh(i, 0x20))) as usize);
+        let link = u32::from_le_bytes(rd(&b, sh(i, 0x28))) as usize;
+        let (soff, ssize) = (u64::from_le_bytes(rd(&b, sh(link, 0x18))) as usize, u64::from_le_bytes(rd(&b, sh(link, 0x20))) as usize);
+        if soff + ssize > b.len() || off + size > b.len() {
+            return out;
+        }
+        out.strtab = b[soff..soff + ssize].to_vec();
+        for k in 0..size / 24 {
+            let e = off + k * 24;
+            if b[e + 4] & 0xf != 2 {
+                continue; // STT_FUNC
+            }
+            let (name, value, sz) = (u32::from_le_bytes(rd(&b, e)), u64::from_le_bytes(rd(&b, e + 8)), u64::from_le_bytes(rd(&b, e + 16)));
+            if value != 0 {
+                out.v.push((value, sz, name));
             }
         }
-        let name = name.replace("::{{closure}}", "").replace('/', "|").replace('*', "x");
-        let name: String = name.chars().filter(|c| !c.is_whitespace()).take(90).collect();
-        return Some(name);
+    }
+    out.v.sort();
+    out
+}
+impl Syms {
+    fn name_at(&self, ip: u64) -> Option<&str> {
+        let a = ip.wrapping_sub(1).wrapping_sub(self.bias);
+        let k = self.v.partition_point(|e| e.0 <= a);
+        if k == 0 {
+            return None;
+        }
+        let (addr, size, name) = self.v[k - 1];
+        if size != 0 && a >= addr + size {
+            return None;
+        }
+        let s = &self.strtab[(name as usize).min(self.strtab.len())..];
+        let end = s.iter().position(|&c| c == 0).unwrap_or(s.len());
+        std::str::from_utf8(&s[..end]).ok()
+    }
+}
+/// legacy Rust mangling `_ZN<len><ident>...17h<hash>E` -> `a::b::c`
+fn demangle(m: &str) -> Option<String> {
+    let mut r = m.strip_prefix("_ZN")?;
+    let mut parts: Vec<String> = Vec::new();
+    while !r.starts_with('E') && !r.is_empty() {
+        let nd = r.bytes().take_while(|b| b.is_ascii_digit()).count();
+        let n: usize = r[..nd].parse().ok()?;
+        let id = r.get(nd..nd + n)?;
+        r = &r[nd + n..];
+        if n == 17 && id.starts_with('h') && id[1..].bytes().all(|b| b.is_ascii_hexdigit()) {
+            continue;
+        }
+        let id = id.replace("$LT$", "<").replace("$GT$", ">").replace("$u20$", " ").replace("$RF$", "&").replace("$C$", ",").replace("$u7b$", "{").replace("$u7d$", "}").replace("..", "::");
+        parts.push(id.trim_start_matches('_').to_string());
+    }
+    Some(parts.join("::"))
+}
+/// First turdb function on the current call stack (for panics whose location is
+/// inside std or a dependency).
+fn turdb_caller() -> Option<String> {
+    static SYMS: OnceLock<Syms> = OnceLock::new();
+    let syms = SYMS.get_or_init(load_syms);
+    let mut ips = [std::ptr::null_mut::<libc::c_void>(); 64];
+    let n = unsafe { libc::backtrace(ips.as_mut_ptr(), 64) }.max(0) as usize;
+    for ip in &ips[..n] {
+        let Some(m) = syms.name_at(*ip as u64) else { continue };
+        if !m.contains("turdb") {
+            continue;
+        }
+        let Some(d) = demangle(m) else { continue };
+        if let Some(p) = d.find("turdb::") {
+            let name = d[p..].replace("::{{closure}}", "").replace('/', "|").replace('*', "x");
+            return Some(name.chars().filter(|c| !c.is_whitespace()).take(90).collect());
+        }
     }
     None
 }
-
 // ---------------------------------------------------------------------------
 // message normalisation and panic-site naming
 // ---------------------------------------------------------------------------
@@ -1242,7 +1311,8 @@ fn big_gen(idx: u64) -> Act {
         a.pre = pre;
         a.post = post;
     }
-    a.limit_ms = 5000;
+    // generous: super-linear but finite work is not a hang (depth-1000 nesting takes seconds)
+    a.limit_ms = 60_000;
     a.also = true;
     a
 }
@@ -1335,11 +1405,32 @@ impl Gens {
 /// (abort / stack overflow / hang): excluded from the in-process enumeration
 /// (they would truncate the owning worker's slice) and re-confirmed by the
 /// explicit isolated cases in `KILL_CASES`.  Returns the finding id.
-fn known_killer(_sub: &str, _act: &Act) -> Option<&'static str> {
+fn known_killer(sub: &str, act: &Act) -> Option<&'static str> {
+    if sub == "fn" {
+        let Sql::Text(s) = &act.sql else { return None };
+        let f = act.class.strip_prefix("fn-").unwrap_or("");
+        let args: Vec<&str> = s.split_once("( ").and_then(|x| x.1.rsplit_once(" )")).map(|x| x.0.split(" , ").collect()).unwrap_or_default();
+        const MAX: &str = "9223372036854775807";
+        // KF-C22-K1: a string of i64::MAX bytes is requested from the allocator -> handle_alloc_error -> abort
+        let count_pos = match f {
+            "REPEAT" | "LPAD" | "RPAD" => 1,
+            "SPACE" => 0,
+            _ => return None,
+        };
+        // (`d` is the fixture column that holds i64::MAX)
+        if matches!(args.get(count_pos), Some(&MAX) | Some(&"d")) {
+            return Some("KF-C22-K1");
+        }
+    }
     None
 }
-/// explicit (sub, idx) cases run in a child process by the owning worker, last
-const KILL_CASES: &[(&str, u64)] = &[];
+/// explicit (sub, exact statement text) cases run in a child process by the owning worker, last
+const KILL_CASES: &[(&str, &str)] = &[
+    ("fn", "SELECT REPEAT ( 'x' , 9223372036854775807 )"),
+    ("fn", "SELECT SPACE ( 9223372036854775807 )"),
+    ("fn", "SELECT LPAD ( 'x' , 9223372036854775807 , 'x' )"),
+    ("fn", "SELECT RPAD ( 'x' , 9223372036854775807 , 'x' )"),
+];
 
 // ---------------------------------------------------------------------------
 // execution environment
@@ -1353,13 +1444,14 @@ const ST_PANIC: usize = 5;
 const ST_SKIP: usize = 6;
 const ST_CALLS: usize = 7;
 const ST_RECREATE: usize = 8;
-const ST_NAMES: [&str; 9] = ["cases", "ok_rows", "ok_changed", "err_parse", "err_exec", "panic", "skipped_identity_edit", "calls", "db_recreated"];
+const ST_REPAIR: usize = 9;
+const ST_NAMES: [&str; 10] = ["cases", "ok_rows", "ok_changed", "err_parse", "err_exec", "panic", "skipped_identity_edit", "calls", "db_recreated", "db_repaired_in_place"];
 
 struct Env {
     scratch: PathBuf,
     db: Option<Tdb>,
     tpl: PathBuf,
-    stats: BTreeMap<&'static str, [u64; 9]>,
+    stats: BTreeMap<&'static str, [u64; 10]>,
     seen: BTreeSet<String>,
     invalid_utf8: u64,
 }
@@ -1369,12 +1461,17 @@ impl Env {
     }
     fn fresh(&mut self, rep: &mut Reporter) {
         rep.begin_case("{\"fixture\":true}");
+        let t0 = Instant::now();
         self.db = None;
+        let t1 = Instant::now();
         let t = Tdb::open_copy(&self.tpl, &self.scratch, "db");
+        if slow_log() && t0.elapsed() > Duration::from_millis(5) {
+            eprintln!("slowfresh drop {:?} open_copy {:?}", t1 - t0, t1.elapsed());
+        }
         self.db = Some(t);
     }
-    fn st(&mut self, sub: &'static str) -> &mut [u64; 9] {
-        self.stats.entry(sub).or_insert([0; 9])
+    fn st(&mut self, sub: &'static str) -> &mut [u64; 10] {
+        self.stats.entry(sub).or_insert([0; 10])
     }
     fn flush(&mut self, rep: &mut Reporter) {
         for (sub, st) in std::mem::take(&mut self.stats) {
@@ -1450,6 +1547,11 @@ fn copy_dir(from: &std::path::Path, to: &std::path::Path) {
             std::fs::copy(&p, &q).expect("copy");
         }
     }
+}
+/// development aid: C22_SLOW=1 prints slow cases / drops of a hand-started worker
+fn slow_log() -> bool {
+    static F: OnceLock<bool> = OnceLock::new();
+    *F.get_or_init(|| std::env::var_os("C22_SLOW").is_some())
 }
 fn fixture_failed(why: &str) -> ! {
     eprintln!("MACHINERY-ERROR: C22 fixture database could not be created: {why}");
@@ -1683,14 +1785,14 @@ fn case_json(sub: &str, idx: u64, act: &Act) -> String {
 }
 
 /// Run case `(sub, idx)` on `env`.  Returns true when the case was non-trivial.
-fn run_case(g: &Gens, sd: &SubDef, idx: u64, env: &mut Env, rep: &mut Reporter, report: bool) -> bool {
+fn run_case(g: &Gens, sd: &SubDef, idx: u64, env: &mut Env, rep: &mut Reporter, report: bool, allow_killers: bool) -> bool {
     let sub = sd.name;
     let act = g.gen(sub, idx);
     if act.skip {
         env.st(sub)[ST_SKIP] += 1;
         return false;
     }
-    if let Some(fid) = known_killer(sub, &act) {
+    if let Some(fid) = known_killer(sub, &act).filter(|_| !allow_killers) {
         if report {
             rep.count(&format!("{sub}.excluded_known_killer_{fid}"), 1);
         }
@@ -1702,16 +1804,26 @@ fn run_case(g: &Gens, sd: &SubDef, idx: u64, env: &mut Env, rep: &mut Reporter, 
     }
     rep.begin_case(&cj);
     arm(act.limit_ms);
+    let t_case = Instant::now();
     let outs = execute_act(env, &act);
     disarm();
-    let mut recreate = !act.pre.is_empty();
+    if slow_log() && t_case.elapsed() > Duration::from_millis(5) {
+        eprintln!("slow {:?}: {}", t_case.elapsed(), vcore::util::clip(&cj, 200));
+    }
+    // What the case did to the shared database decides how the next case's
+    // starting state is produced (deterministic, so replay of the block prefix
+    // reproduces it): 0 keep, 1 repair rows in place, 2 drop created objects, 3 recreate.
+    // (Dropping a written-to database costs 10-20 ms, hence the cheap repairs.)
+    let mut fix = if act.pre.is_empty() { 0u8 } else { 3 };
     let mut nontrivial = true;
+    let word = if act.api.is_none() { match &act.sql { Sql::Text(s) => first_word(s), Sql::Bytes(b) => first_word(&String::from_utf8_lossy(&b[..b.len().min(16)])) } } else { String::new() };
+    let readonly_stmt = matches!(word.as_str(), "SELECT" | "WITH" | "EXPLAIN");
     let st = env.st(sub);
     st[ST_CASES] += 1;
     let mut new_classes: Vec<String> = Vec::new();
     for (call, out) in &outs {
         st[ST_CALLS] += 1;
-        let main = call.is_empty();
+        let main = call.is_empty() || act.api.is_some();
         match out {
             Out::Rows => {
                 if main {
@@ -1723,8 +1835,13 @@ fn run_case(g: &Gens, sd: &SubDef, idx: u64, env: &mut Env, rep: &mut Reporter, 
                     st[ST_CHANGED] += 1
                 }
                 if act.api.is_none() {
-                    let lenient = sub == "lex" && !*ddl && first_word(&act.info()) == "INSERT";
-                    recreate |= !lenient;
+                    fix = fix.max(if !*ddl {
+                        1
+                    } else if word == "CREATE" {
+                        if matches!(sub, "lex" | "tok") { 0 } else { 2 }
+                    } else {
+                        3
+                    });
                 }
             }
             Out::Err(e) => {
@@ -1741,7 +1858,9 @@ fn run_case(g: &Gens, sd: &SubDef, idx: u64, env: &mut Env, rep: &mut Reporter, 
             }
             Out::Panic(p) => {
                 st[ST_PANIC] += 1;
-                recreate = true;
+                if !(readonly_stmt && (main || call == "query" || call == "prepare")) {
+                    fix = 3;
+                }
                 if report {
                     let dot = if main { String::new() } else { format!(".{call}") };
                     let sig = format!("C22/{sub}/{}{dot}/{}", act.class.replace('/', "|"), panic_site(p));
@@ -1763,9 +1882,32 @@ fn run_case(g: &Gens, sd: &SubDef, idx: u64, env: &mut Env, rep: &mut Reporter, 
             }
         }
     }
-    if recreate {
-        st[ST_RECREATE] += 1;
+    if sd.block == 1 {
+        fix = 3;
+    }
+    if fix == 1 || fix == 2 {
+        let stmts: &[&str] = if fix == 1 { &["TRUNCATE TABLE t", "TRUNCATE TABLE u", FIXTURE[3], FIXTURE[4]] } else { &["DROP TABLE IF EXISTS w", "DROP INDEX IF EXISTS iw", "DROP SCHEMA IF EXISTS s2"] };
+        arm(5000);
+        if let Some(t) = env.db.as_ref() {
+            for q in stmts {
+                if !matches!(do_exec(t.db(), q), Out::Changed(_)) {
+                    fix = 3;
+                    break;
+                }
+            }
+        }
+        disarm();
+        if fix != 3 {
+            env.st(sub)[ST_REPAIR] += 1;
+        }
+    }
+    if fix == 3 {
+        env.st(sub)[ST_RECREATE] += 1;
+        let t0 = Instant::now();
         env.db = None;
+        if slow_log() && t0.elapsed() > Duration::from_millis(3) {
+            eprintln!("slowdrop {:?}: {}", t0.elapsed(), vcore::util::clip(&cj, 200));
+        }
     }
     if report {
         for c in new_classes {
@@ -1807,7 +1949,7 @@ fn isolated(ctx: &Ctx, sub: &str, idx: u64, class: &str, info: &str, rep: &mut R
         match child.try_wait() {
             Ok(Some(s)) => break Some(s),
             Ok(None) => {
-                if t0.elapsed() > Duration::from_secs(180) {
+                if t0.elapsed() > Duration::from_secs(400) {
                     let _ = child.kill();
                     let _ = child.wait();
                     break None;
@@ -1871,6 +2013,9 @@ fn isolated(ctx: &Ctx, sub: &str, idx: u64, class: &str, info: &str, rep: &mut R
 }
 
 fn setup_process() {
+    // an abort path (failed allocation, stack overflow) must not spend seconds
+    // symbolising a backtrace: it would race with the watchdog
+    std::env::set_var("RUST_BACKTRACE", "0");
     start_watchdog();
     limit_address_space();
     install_hook();
@@ -1940,7 +2085,7 @@ impl Check for C22 {
                 let mut ran = 0u64;
                 for idx in lo..hi {
                     let c0 = env.st(sd.name)[ST_CASES];
-                    if run_case(&g, sd, idx, &mut env, rep, true) {
+                    if run_case(&g, sd, idx, &mut env, rep, true, false) {
                         nt += 1;
                     }
                     ran += env.st(sd.name)[ST_CASES] - c0;
@@ -1952,10 +2097,19 @@ impl Check for C22 {
         }
         env.db = None;
         // known killers: re-confirmed last, each in a child process
-        for (k, (sub, idx)) in KILL_CASES.iter().enumerate() {
-            if ctx.mine(gid + k as u64) {
-                let act = g.gen(sub, *idx);
-                isolated(ctx, sub, *idx, &act.class, &act.info(), rep);
+        for (k, (sub, text)) in KILL_CASES.iter().enumerate() {
+            if !ctx.mine(gid + k as u64) || ctx.opt("only").map(|o| !o.split(',').any(|x| x == *sub)).unwrap_or(false) {
+                continue;
+            }
+            let sd = subs.iter().find(|s| s.name == *sub).expect("sub of kill case");
+            let found = (0..sd.quick).find(|&i| matches!(&g.gen(sub, i).sql, Sql::Text(s) if s == text));
+            match found {
+                Some(idx) => {
+                    let act = g.gen(sub, idx);
+                    rep.note(&format!("input class of known finding {} is excluded from the in-process enumeration of sub-space {sub} and re-confirmed by an isolated case", known_killer(sub, &act).unwrap_or("?")));
+                    isolated(ctx, sub, idx, &act.class, &act.info(), rep);
+                }
+                None => rep.note(&format!("kill case not found in enumeration: {text}")),
             }
         }
         env.flush(rep);
@@ -1983,11 +2137,11 @@ impl Check for C22 {
         if sd.block > 1 {
             let lo = idx / sd.block * sd.block;
             for i in lo..idx {
-                run_case(&g, sd, i, &mut env, rep, false);
+                run_case(&g, sd, i, &mut env, rep, false, false);
             }
         }
         let c0 = env.st(sd.name)[ST_CASES];
-        let nt = run_case(&g, sd, idx, &mut env, rep, true);
+        let nt = run_case(&g, sd, idx, &mut env, rep, true, true);
         if sd.bulk {
             rep.bulk(env.st(sd.name)[ST_CASES] - c0, nt as u64);
         }
